@@ -242,119 +242,178 @@ type (
 )
 
 func (p schemaValidatorsPool) BorrowValidator() *SchemaValidator {
+	if verifEnabled {
+		return verifBorrow("schemaValidatorsPool", p.Get().(*SchemaValidator))
+	}
 	return p.Get().(*SchemaValidator)
 }
 
 func (p schemaValidatorsPool) RedeemValidator(s *SchemaValidator) {
+	verifRedeemed("schemaValidatorsPool", s)
 	// NOTE: s might be nil. In that case, Put is a noop.
 	p.Put(s)
 }
 
 func (p objectValidatorsPool) BorrowValidator() *objectValidator {
+	if verifEnabled {
+		return verifBorrow("objectValidatorsPool", p.Get().(*objectValidator))
+	}
 	return p.Get().(*objectValidator)
 }
 
 func (p objectValidatorsPool) RedeemValidator(s *objectValidator) {
+	verifRedeemed("objectValidatorsPool", s)
 	p.Put(s)
 }
 
 func (p sliceValidatorsPool) BorrowValidator() *schemaSliceValidator {
+	if verifEnabled {
+		return verifBorrow("sliceValidatorsPool", p.Get().(*schemaSliceValidator))
+	}
 	return p.Get().(*schemaSliceValidator)
 }
 
 func (p sliceValidatorsPool) RedeemValidator(s *schemaSliceValidator) {
+	verifRedeemed("sliceValidatorsPool", s)
 	p.Put(s)
 }
 
 func (p itemsValidatorsPool) BorrowValidator() *itemsValidator {
+	if verifEnabled {
+		return verifBorrow("itemsValidatorsPool", p.Get().(*itemsValidator))
+	}
 	return p.Get().(*itemsValidator)
 }
 
 func (p itemsValidatorsPool) RedeemValidator(s *itemsValidator) {
+	verifRedeemed("itemsValidatorsPool", s)
 	p.Put(s)
 }
 
 func (p basicCommonValidatorsPool) BorrowValidator() *basicCommonValidator {
+	if verifEnabled {
+		return verifBorrow("basicCommonValidatorsPool", p.Get().(*basicCommonValidator))
+	}
 	return p.Get().(*basicCommonValidator)
 }
 
 func (p basicCommonValidatorsPool) RedeemValidator(s *basicCommonValidator) {
+	verifRedeemed("basicCommonValidatorsPool", s)
 	p.Put(s)
 }
 
 func (p headerValidatorsPool) BorrowValidator() *HeaderValidator {
+	if verifEnabled {
+		return verifBorrow("headerValidatorsPool", p.Get().(*HeaderValidator))
+	}
 	return p.Get().(*HeaderValidator)
 }
 
 func (p headerValidatorsPool) RedeemValidator(s *HeaderValidator) {
+	verifRedeemed("headerValidatorsPool", s)
 	p.Put(s)
 }
 
 func (p paramValidatorsPool) BorrowValidator() *ParamValidator {
+	if verifEnabled {
+		return verifBorrow("paramValidatorsPool", p.Get().(*ParamValidator))
+	}
 	return p.Get().(*ParamValidator)
 }
 
 func (p paramValidatorsPool) RedeemValidator(s *ParamValidator) {
+	verifRedeemed("paramValidatorsPool", s)
 	p.Put(s)
 }
 
 func (p basicSliceValidatorsPool) BorrowValidator() *basicSliceValidator {
+	if verifEnabled {
+		return verifBorrow("basicSliceValidatorsPool", p.Get().(*basicSliceValidator))
+	}
 	return p.Get().(*basicSliceValidator)
 }
 
 func (p basicSliceValidatorsPool) RedeemValidator(s *basicSliceValidator) {
+	verifRedeemed("basicSliceValidatorsPool", s)
 	p.Put(s)
 }
 
 func (p numberValidatorsPool) BorrowValidator() *numberValidator {
+	if verifEnabled {
+		return verifBorrow("numberValidatorsPool", p.Get().(*numberValidator))
+	}
 	return p.Get().(*numberValidator)
 }
 
 func (p numberValidatorsPool) RedeemValidator(s *numberValidator) {
+	verifRedeemed("numberValidatorsPool", s)
 	p.Put(s)
 }
 
 func (p stringValidatorsPool) BorrowValidator() *stringValidator {
+	if verifEnabled {
+		return verifBorrow("stringValidatorsPool", p.Get().(*stringValidator))
+	}
 	return p.Get().(*stringValidator)
 }
 
 func (p stringValidatorsPool) RedeemValidator(s *stringValidator) {
+	verifRedeemed("stringValidatorsPool", s)
 	p.Put(s)
 }
 
 func (p schemaPropsValidatorsPool) BorrowValidator() *schemaPropsValidator {
+	if verifEnabled {
+		return verifBorrow("schemaPropsValidatorsPool", p.Get().(*schemaPropsValidator))
+	}
 	return p.Get().(*schemaPropsValidator)
 }
 
 func (p schemaPropsValidatorsPool) RedeemValidator(s *schemaPropsValidator) {
+	verifRedeemed("schemaPropsValidatorsPool", s)
 	p.Put(s)
 }
 
 func (p formatValidatorsPool) BorrowValidator() *formatValidator {
+	if verifEnabled {
+		return verifBorrow("formatValidatorsPool", p.Get().(*formatValidator))
+	}
 	return p.Get().(*formatValidator)
 }
 
 func (p formatValidatorsPool) RedeemValidator(s *formatValidator) {
+	verifRedeemed("formatValidatorsPool", s)
 	p.Put(s)
 }
 
 func (p typeValidatorsPool) BorrowValidator() *typeValidator {
+	if verifEnabled {
+		return verifBorrow("typeValidatorsPool", p.Get().(*typeValidator))
+	}
 	return p.Get().(*typeValidator)
 }
 
 func (p typeValidatorsPool) RedeemValidator(s *typeValidator) {
+	verifRedeemed("typeValidatorsPool", s)
 	p.Put(s)
 }
 
 func (p schemasPool) BorrowSchema() *spec.Schema {
+	if verifEnabled {
+		return verifBorrow("schemasPool", p.Get().(*spec.Schema))
+	}
 	return p.Get().(*spec.Schema)
 }
 
 func (p schemasPool) RedeemSchema(s *spec.Schema) {
+	verifRedeemed("schemasPool", s)
 	p.Put(s)
 }
 
 func (p resultsPool) BorrowResult() *Result {
+	if verifEnabled {
+		return verifBorrow("resultsPool", p.Get().(*Result).cleared())
+	}
 	return p.Get().(*Result).cleared()
 }
 
@@ -362,5 +421,6 @@ func (p resultsPool) RedeemResult(s *Result) {
 	if s == emptyResult {
 		return
 	}
+	verifRedeemed("resultsPool", s)
 	p.Put(s)
 }
